@@ -459,8 +459,15 @@ func (s *c27sim) runList(li int, l C27List) {
 	if err != nil {
 		// more than the account owns: insufficient; within what it owns but beyond what is mature: immature
 		var wantErr error
-		if particular != nil {
-			// an output reserved by the list's own first action changes which reason the keeper gives
+		dupUnmerged := false
+		if !l.Merge {
+			for _, n := range seenSpender {
+				dupUnmerged = dupUnmerged || n > 1
+			}
+		}
+		if particular != nil || dupUnmerged {
+			// outputs reserved by the list's own earlier actions change which reason the keeper
+			// gives, and unmerged actions are judged one by one: only the class is required
 		} else if mustFail {
 			wantErr = account.ErrInsufficient
 		} else if beyondMature {
